@@ -1,6 +1,7 @@
 """C06 - formatting changes nothing but whitespace; C07 - formatting is canonical and idempotent.
 Both properties are decided on the same groups of whitespace variants (family FamFormat)."""
 import glob
+import json
 import os
 import random
 import shutil
@@ -127,9 +128,37 @@ def cli_check(chk, cases, results, rnd):
     chk.extra["fmt_c_runs"] = n
 
 
+def family_groups(chk, rnd):
+    """The programs of the expression and control-flow families (written for C01 and C10, not for the formatter), each in
+    the three layouts the syntax specification renders: the layouts differ in optional whitespace only, so the laws
+    of a variant group apply; accepted token edits of valid programs as groups of one."""
+    out = []
+    for mod in ("FamExpr",) if chk.tier == "quick" else ("FamExpr", "FamControl"):
+        res = machine.tlc_family(chk, mod, chk.tier, layouts=machine.LAYOUTS, label=mod + "(format)", timeout=1500,
+                                 defines={"DEPTH": 2} if mod == "FamControl" else None)
+        seen = set()
+        progs = []
+        for c in res.cases:
+            srcs = c.get("srcs") or {}
+            if c.get("soundOnly") or not all(ly in srcs for ly in machine.LAYOUTS):
+                continue
+            key = json.dumps(srcs, sort_keys=True)
+            if key in seen:
+                continue
+            seen.add(key)
+            progs.append(c)
+        if chk.tier == "quick":
+            rnd.shuffle(progs)
+            progs = progs[:1500]
+        for n, c in enumerate(progs):
+            out.append({"id": "%s-%d" % (mod, n), "stage": "format", "variants": [c["srcs"][ly] for ly in machine.LAYOUTS], "hasFuncs": True,
+                        "class": "family/%s/%s" % (mod, c.get("class")), "expect": {"laws": "C06 + C07 on the three layouts"}})
+    return out
+
+
 def run_both(chk, which):
     rnd = random.Random(common.seed())
-    cases = groups(chk, rnd) + corpus_cases(chk, rnd) + header_cases(chk, rnd)
+    cases = groups(chk, rnd) + corpus_cases(chk, rnd) + header_cases(chk, rnd) + family_groups(chk, rnd)
     results = common.replay(cases, deadline="30s", name="format")
     for c in cases[:1]:
         chk.sample({"variant1": machine.text_of(c["variants"][0]), "variant3": machine.text_of(c["variants"][2]),
@@ -174,6 +203,7 @@ def run_both(chk, which):
     chk.exhaustive = False
     chk.rule = ("family FamFormat: 4 programs (all statement forms, functions, handler, multi-line array/map literals, nested "
                 "blocks) x trivia codes (per line: end-of-line comment, comment lines, blank-line runs and combinations; trailing "
+                "[and the programs of FamExpr (thorough: also FamControl) in the canon / tight / wide layouts as variant groups] "
                 "comment / blank lines; fixed all-lines patterns + seed-chosen codes) x 4 variants (canon/tight/wide layout, blank "
                 "runs of 1-3, blanks or tab before //), plus the repository's .evy files; non-trivial = distinct (program, trivia)")
 
